@@ -172,6 +172,8 @@ pub struct Monitors {
     /// jobs for which a cancel was answered: tasks canceled
     canceled_tasks: BTreeSet<TaskId>,
     forgotten: BTreeSet<JobId>,
+    /// (task, redirect target) -> remaining life time of the target when the redirect appeared
+    redirect_remaining: BTreeMap<(TaskId, WorkerId), Option<std::time::Duration>>,
     /// selector (and status filter) of the request the polled client is waiting for
     pub current_sel: Option<(super::world::Sel, Vec<Status>)>,
     pub micro: u32,
@@ -1496,6 +1498,14 @@ impl Monitors {
                 }
             }
         }
+        // note the remaining life time of the target when a redirect first shows up; forget
+        // redirects that are gone (after the messages of this step were judged, see below)
+        for (t, target, _) in &snap.redirects {
+            if !self.redirect_remaining.contains_key(&(*t, *target)) {
+                let rem = snap.workers.iter().find(|w| w.id == *target).and_then(|w| w.remaining);
+                self.redirect_remaining.insert((*t, *target), rem);
+            }
+        }
         // ComputeTasks sent in this step: capability and life time
         while self.tws_idx < obs.to_worker_sent.len() {
             let m = obs.to_worker_sent[self.tws_idx].clone();
@@ -1534,7 +1544,18 @@ impl Monitors {
                     let min_time = rq.min_time();
                     if !min_time.is_zero() {
                         obs.class("time-request-placed");
-                        if let Some(rem) = w.remaining {
+                        // a redirect is decided in a scheduling round and carried out when the
+                        // source worker has answered (or is gone): the life time counts at the
+                        // decision (the remaining time noted when the redirect first showed up)
+                        let decided = self.redirect_remaining.get(&(it.task, m.worker)).copied();
+                        let rem_at_decision = match decided {
+                            Some(r) => {
+                                obs.class("redirect-carried-out");
+                                r
+                            }
+                            None => w.remaining,
+                        };
+                        if let Some(rem) = rem_at_decision {
                             // 2 s tolerance: the scheduler's `now` and the snapshot's differ by real time
                             if rem + std::time::Duration::from_secs(2) < min_time {
                                 obs.alarm(
@@ -1558,6 +1579,8 @@ impl Monitors {
                 obs.class("cancel-sent");
             }
         }
+        self.redirect_remaining
+            .retain(|k, _| snap.redirects.iter().any(|(t, w, _)| (*t, *w) == *k));
         let _ = world;
     }
 
